@@ -77,12 +77,19 @@ class Flatten(nn.Module):
 class First(nn.Module):
     """RNN / attention layers return tuples"""
 
-    def __init__(self, m, self_attn=False):
+    def __init__(self, m, self_attn=False, kpm=False):
         super().__init__()
         self.m = m
         self.self_attn = self_attn
+        self.kpm = kpm
 
     def forward(self, x):
+        if self.self_attn and self.kpm:
+            # a key-padding mask that is a function of the SAMPLE's own input (so the sample-alone run uses the same
+            # row): key s of sample b is padded iff x[s, b, 0] > 0.3 (sequence-first layout); key 0 is never padded
+            mask = (x[..., 0] > 0.3).transpose(0, 1).clone()
+            mask[:, 0] = False
+            return self.m(x, x, x, key_padding_mask=mask)[0]
         out = self.m(x, x, x) if self.self_attn else self.m(x)
         return out[0]
 
@@ -196,7 +203,7 @@ def build_layer(L, batch_first=True):
         m = First(cls(L["in"], L["hidden"], **kw))
     elif t == "MHA":
         m = First(DPMultiheadAttention(L["E"], L["heads"], bias=L.get("bias", True), add_bias_kv=L.get("bias_kv", False),
-                                       add_zero_attn=L.get("zero_attn", False)), self_attn=True)
+                                       add_zero_attn=L.get("zero_attn", False)), self_attn=True, kpm=L.get("kpm", False))
     elif t == "Affine":
         m = Affine(L["F"])
     elif t == "Bilinear2":
@@ -678,7 +685,7 @@ def gen_spec(rng, allow_defects=True, mode=None):
             heads = rng.choice([1, 2])
             if cur[-1] % heads:
                 heads = 1
-            L = {"t": t, "E": cur[-1], "heads": heads, "bias": rng.random() < 0.8, "bias_kv": rng.random() < 0.3, "zero_attn": rng.random() < 0.2}
+            L = {"t": t, "E": cur[-1], "heads": heads, "bias": rng.random() < 0.8, "bias_kv": rng.random() < 0.3, "zero_attn": rng.random() < 0.2, "kpm": rng.random() < 0.5}
         elif t == "Transpose12":
             L = {"t": t}
             cur, k = [cur[1], cur[0]], ("c1" if k == "seq" else "seq")
